@@ -70,6 +70,26 @@ static QDomElement toDom(const QString &xml)
     return doc.documentElement();
 }
 
+// transport for part D (as harness/cxx/sm.cpp): a QSslSocket whose state is forced and whose writes are captured
+class FakeSock : public QSslSocket
+{
+public:
+    std::function<void(const QByteArray &)> sink;
+    void up()
+    {
+        setOpenMode(QIODevice::ReadWrite);
+        setSocketState(QAbstractSocket::ConnectedState);
+    }
+    void down() { setSocketState(QAbstractSocket::UnconnectedState); }
+
+protected:
+    qint64 writeData(const char *d, qint64 n) override
+    {
+        if (sink) sink(QByteArray(d, int(n)));
+        return n;
+    }
+};
+
 class TestClient : public QXmppClient
 {
 public:
@@ -98,10 +118,11 @@ public:
     QXmppOutgoingClient *stream() const { return d->stream; }
     void inject(const QString &xml) { d->stream->handlePacketReceived(toDom(xml)); }
     void enableSm() { d->stream->enableStreamManagement(false); }
-    void openSession(bool resumed)
+    void openSession(bool resumed, bool smEnabled)
     {
         auto &c2s = d->stream->c2sStreamManager();
         c2s.setResumed(resumed);
+        c2s.setEnabled(smEnabled);
         d->stream->d->sessionStarted = false;
         d->stream->openSession();
     }
@@ -111,6 +132,15 @@ public:
         c2s.m_canResume = canResume;
         d->stream->closeSession();
     }
+    // part D: a transport whose writes are captured, under the real XmppSocket
+    void installSocket(QSslSocket *fs)
+    {
+        fs->setParent(d->stream);
+        d->stream->d->socket.setSocket(fs);
+    }
+    void streamStart() { d->stream->handleStart(); }
+    void socketLost() { d->stream->_q_socketDisconnected(); }
+    void streamDisconnect() { d->stream->disconnectFromHost(); }
     bool connectLoopback(quint16 port)
     {
         auto *s = d->stream->socket();
@@ -344,7 +374,8 @@ struct IqEnv {
             else if (w == "ackall") c->inject(QStringLiteral("<a xmlns='urn:xmpp:sm:3' h='4000000000'/>"));
             else if (w == "ensm") c->enableSm();
             else if (w == "recv") { std::string k, t, id, from; is >> k >> t >> id >> from; doRecv(k, t, id, from); }
-            else if (w == "opened") { int r; is >> r; c->openSession(r); if (!r) checkAllFinished("C07:iq:pending-after-nonresumable-end"); }
+            // opened <smResumed> <smEnabled>: after a session that was NOT resumed nothing may be pending, whatever smEnabled is
+            else if (w == "opened") { int r, e; is >> r >> e; c->openSession(r, e); if (!r) checkAllFinished("C07:iq:pending-after-nonresumable-end"); }
             else if (w == "closed") { int r; is >> r; c->closeSession(r); if (!r) checkAllFinished("C07:iq:pending-after-nonresumable-end"); }
             else if (w == "destroy") { c.reset(); checkAllFinished("C07:iq:pending-after-destruction"); }
             else { fprintf(stderr, "harness bug: op %s\n", op.c_str()); exit(3); }
@@ -553,6 +584,213 @@ static void enumMam(const std::vector<std::string> &alpha, int depth, std::vecto
     for (auto &a : alpha) { cur.push_back(a); enumMam(alpha, depth, cur); cur.pop_back(); }
 }
 
+// ------------------------------------------------------------------------------------------------ Part D
+// Session boundaries through the REAL negotiation of a real client: stream start, <stream:features/>, the client's
+// <resume/> answered with <resumed/> or <failed/>, resource binding, <enable/> answered with <enabled/>, connection loss
+// through _q_socketDisconnected(), orderly disconnect through disconnectFromHost() — with requests outstanding across
+// every boundary.  The model ops printed carry the resumed / canResume values a CORRECT negotiation yields for what the
+// scripted server answered; the oracle judges by the script alone (what the server said), never by client flags.
+struct NegEnv {
+    std::unique_ptr<TestClient> c;
+    FakeSock *fs = nullptr;
+    QObject ctx;
+    enum Rq { None, Resume, Bind, Enable } lastReq = None;
+    QString bindId;
+    bool connected = false;
+    bool refResumable = false;   // script truth: the last session had stream management with resume='true' and was not ended orderly
+    bool olderResumable = false; // an EARLIER session was resumable and nothing since told the client otherwise (orderly close,
+                                 // <enabled/> without resume): the situation in which a stale belief can survive
+    struct R { QString id; std::string canon; int count = 0; std::string how; };
+    std::vector<R> reqs;
+    std::vector<std::pair<int, std::string>> stepDone;
+    std::string history;
+    int injected = 0;
+
+    NegEnv()
+    {
+        c = std::make_unique<TestClient>(QStringLiteral("me@own.org/res"), false);
+        fs = new FakeSock;
+        fs->sink = [this](const QByteArray &d) { onWrite(d); };
+        c->installSocket(fs);
+    }
+    void onWrite(const QByteArray &d)
+    {
+        if (d.startsWith("<resume ")) lastReq = Resume;
+        else if (d.startsWith("<enable ")) lastReq = Enable;
+        else if (d.startsWith("<iq ") && d.contains("xmpp-bind")) { bindId = attrOf(QString::fromUtf8(d), QStringLiteral("id")); lastReq = Bind; }
+    }
+    void watch(QXmppTask<IqResult> task, int req)
+    {
+        task.then(&ctx, [this, req](IqResult &&res) {
+            std::string how;
+            if (auto *el = std::get_if<QDomElement>(&res)) how = "reply:" + S(el->attribute(QStringLiteral("type"))) + ":" + S(el->attribute(QStringLiteral("from")));
+            else {
+                auto &e = std::get<QXmppError>(res);
+                auto se = e.value<QXmpp::SendError>();
+                if (e.isStanzaError()) how = "reply:error:?";
+                else if (se && *se == QXmpp::SendError::SocketWriteError) how = "senderr";
+                else if (e.description.contains(QL("cancelled"))) how = "cancelled";
+                else if (e.description == QL("Disconnected")) how = "senderr";
+                else how = "error:" + S(e.description);
+            }
+            reqs[req].count++; reqs[req].how = how;
+            stepDone.push_back({ req, how });
+            if (reqs[req].count > 1) oracleFail("C07:neg:completed-twice", history);
+        });
+    }
+    std::string obs()
+    {
+        std::sort(stepDone.begin(), stepDone.end());
+        std::string o;
+        for (auto &d : stepDone) { if (!o.empty()) o += ","; o += std::to_string(d.first) + ":" + d.second; }
+        if (o.empty()) o = "-";
+        std::vector<std::string> pend;
+        if (c) for (auto &r : reqs) if (c->stream()->iqManager().hasId(r.id)) pend.push_back(r.canon);
+        std::sort(pend.begin(), pend.end());
+        std::string p;
+        for (auto &x : pend) { if (!p.empty()) p += ","; p += x; }
+        return o + "|" + (p.empty() ? "-" : p);
+    }
+    void line(const std::string &modelOp) { corr(modelOp, obs()); stepDone.clear(); }
+    std::vector<int> pendingNow() const
+    {
+        std::vector<int> v;
+        for (size_t k = 0; k < reqs.size(); k++) if (reqs[k].count == 0) v.push_back((int)k);
+        return v;
+    }
+    // the session that just ended / began cannot continue the old one: every request issued so far must have completed
+    void mustAllBeCompleted(const char *key)
+    {
+        for (auto &r : reqs) if (r.count != 1) { oracleFail(key, history); return; }
+        oraclePass()++;
+    }
+    // across a genuine resumption (and a loss that can still be resumed) nothing may be given up
+    void mustAllBeRetained(const std::vector<int> &before)
+    {
+        for (int k : before) if (reqs[k].count != 0) { oracleFail("C07:neg:cancelled-across-resumption", history); return; }
+        oraclePass()++;
+    }
+
+    void loss()
+    {
+        if (!connected) return;
+        auto before = pendingNow();
+        fs->down(); connected = false;
+        c->socketLost();
+        bool can = refResumable;
+        if (can) mustAllBeRetained(before);
+        else mustAllBeCompleted(olderResumable ? "C07:neg:stale-resumable-after-session-without-sm" : "C07:neg:pending-after-nonresumable-end");
+        line("nloss");
+    }
+    void orderlyDisconnect()
+    {
+        if (!connected) return;
+        c->streamDisconnect();          // </stream:stream>, resumption given up
+        fs->down(); connected = false;
+        c->socketLost();                // the socket reports the disconnect
+        refResumable = false; olderResumable = false;
+        mustAllBeCompleted("C07:neg:pending-after-nonresumable-end");
+        line("ndisc");
+    }
+    // pol: 'R' server resumes if asked, 'F' server refuses resumption and offers a new resumable SM session,
+    //      'U' as F but the new SM session is not resumable, 'N' server without stream management
+    void connect(char pol)
+    {
+        if (connected) loss();
+        auto before = pendingNow();
+        fs->up(); connected = true;
+        c->streamStart();
+        lastReq = None;
+        bool sm = pol != 'N';
+        c->inject(QL("<stream:features xmlns:stream='http://etherx.jabber.org/streams'><bind xmlns='urn:ietf:params:xml:ns:xmpp-bind'/>") +
+                  (sm ? QL("<sm xmlns='urn:xmpp:sm:3'/>") : QString()) + QL("</stream:features>"));
+        bool genuine = false, smNow = false, resumableNow = false;
+        for (int guard = 0; guard < 8; guard++) {
+            Rq rq = lastReq; lastReq = None;
+            if (rq == None) break;
+            if (rq == Bind) {
+                c->inject(QL("<iq xmlns='jabber:client' type='result' id='") + bindId + QL("'><bind xmlns='urn:ietf:params:xml:ns:xmpp-bind'><jid>me@own.org/res</jid></bind></iq>"));
+            } else if (rq == Resume) {
+                stat("neg_resume_requests");
+                if (pol == 'R' && refResumable) {   // a correct server resumes only a session it still holds
+                    genuine = true; smNow = true; resumableNow = true;
+                    c->inject(QL("<resumed xmlns='urn:xmpp:sm:3' previd='sess' h='0'/>"));
+                } else {
+                    c->inject(QL("<failed xmlns='urn:xmpp:sm:3'><item-not-found xmlns='urn:ietf:params:xml:ns:xmpp-stanzas'/></failed>"));
+                }
+            } else if (rq == Enable) {
+                smNow = true; resumableNow = pol != 'U';
+                c->inject(pol == 'U' ? QL("<enabled xmlns='urn:xmpp:sm:3' id='sess'/>") : QL("<enabled xmlns='urn:xmpp:sm:3' resume='true' id='sess'/>"));
+            }
+        }
+        if (resumableNow) olderResumable = true;           // (re-)established a resumable session
+        else if (smNow) olderResumable = false;            // <enabled/> without resume: the client was told
+        refResumable = resumableNow;
+        stat(genuine ? "neg_sessions_resumed" : smNow ? "neg_sessions_new_sm" : "neg_sessions_new_nosm");
+        if (genuine) mustAllBeRetained(before);
+        else mustAllBeCompleted("C07:neg:pending-after-new-session");
+        line(std::string("nconn ") + (smNow ? "1 " : "0 ") + (resumableNow ? "1 " : "0 ") + (genuine ? "1" : "0"));
+    }
+    void send()
+    {
+        R r; r.canon = "r" + std::to_string(reqs.size()); r.id = Q(r.canon);
+        int req = (int)reqs.size();
+        reqs.push_back(r);
+        QXmppIq iq(QXmppIq::Get); iq.setId(r.id); iq.setTo(QStringLiteral("bob@rem.org/r"));
+        watch(c->sendIq(std::move(iq)), req);
+        line("send " + r.canon + " bob@rem.org/r");
+    }
+    void reply(bool stranger)
+    {
+        if (!connected || reqs.empty()) return;
+        auto pend = pendingNow();
+        int k = pend.empty() ? (int)reqs.size() - 1 : pend.front();
+        bool wasPending = reqs[k].count == 0;
+        std::string from = stranger ? "eve@evil.org/x" : "bob@rem.org/r";
+        c->inject(QL("<iq xmlns='jabber:client' type='result' id='") + reqs[k].id + QL("' from='") + Q(from) + QL("' to='me@own.org/res' mk='") + QString::number(injected++) + QL("'><x xmlns='urn:verif:payload'/></iq>"));
+        if (wasPending) {
+            if (stranger && reqs[k].count != 0) oracleFail("C07:neg:completed-by-foreign-sender", history);
+            else if (!stranger && reqs[k].count != 1) oracleFail("C07:neg:legitimate-reply-ignored", history);
+            else oraclePass()++;
+        }
+        line("recv iq result " + reqs[k].canon + " " + from);
+    }
+    void apply(const std::string &sym)
+    {
+        history += sym + ";";
+        stat("negop:" + sym);
+        if (sym == "send") send();
+        else if (sym == "reply") reply(false);
+        else if (sym == "stray") reply(true);
+        else if (sym == "loss") loss();
+        else if (sym == "disc") orderlyDisconnect();
+        else if (sym == "connR") connect('R');
+        else if (sym == "connF") connect('F');
+        else if (sym == "connU") connect('U');
+        else if (sym == "connN") connect('N');
+        else { fprintf(stderr, "harness bug: neg op %s\n", sym.c_str()); exit(3); }
+    }
+};
+
+static void runNegSeq(const std::vector<std::string> &ops)
+{
+    NegEnv env;
+    corr("reset neg me@own.org", "ok");
+    for (auto &op : ops) env.apply(op);
+    env.history += "destroy;";
+    env.c.reset();
+    for (auto &r : env.reqs) if (r.count != 1) { oracleFail("C07:neg:pending-after-destruction", env.history); break; }
+    oraclePass()++;
+    env.line("destroy");
+    stat("neg_sequences");
+}
+
+static void enumNeg(const std::vector<std::string> &alpha, int depth, std::vector<std::string> &cur)
+{
+    if ((int)cur.size() == depth) { runNegSeq(cur); return; }
+    for (auto &a : alpha) { cur.push_back(a); enumNeg(alpha, depth, cur); cur.pop_back(); }
+}
+
 // ------------------------------------------------------------------------------------------------ Part C
 struct MgrCase {
     std::string name;
@@ -711,8 +949,10 @@ int main(int argc, char **argv)
     // ---- Part A: corpus
     runIqSeq(OWN, false, true, { "send a " + A1, "recv iq result a eve@evil.org", "recv iq result a bob@rem.org", "recv iq result a BOB@rem.org/r", "recv iq result a " + A1, "recv iq result a " + A1 });
     runIqSeq(OWN, false, true, { "send a -", "recv iq result a own.org", "recv iq result a me@own.org/res", "recv iq error a me@own.org" });
-    runIqSeq(OWN, false, true, { "send a " + A1, "send a " + A1, "send - " + A1, "recv iq result g0 " + A1, "recv iq error g1 -", "closed 1", "opened 1", "recv iq result a " + A1 });
-    runIqSeq(OWN, false, true, { "send a " + A1, "opened 0", "send a own.org", "failall", "recv iq result a own.org" });
+    runIqSeq(OWN, false, true, { "send a " + A1, "send a " + A1, "send - " + A1, "recv iq result g0 " + A1, "recv iq error g1 -", "closed 1", "opened 1 1", "recv iq result a " + A1 });
+    runIqSeq(OWN, false, true, { "send a " + A1, "opened 0 0", "send a own.org", "failall", "recv iq result a own.org" });
+    runIqSeq(OWN, false, true, { "send a " + A1, "closed 1", "ensm", "opened 0 1" });   // seeded change C07_a1: new session with SM enabled
+    runIqSeq(OWN, false, true, { "send a bob@rem.org", "recv iq result a bob@rem.org/r", "recv iq result a bob@rem.org" });   // seeded change C07_a2
     runIqSeq("-", false, true, { "send a -", "send - -", "sendraw - x@y", "sendraw a -", "sendraw a x@y", "sendraw a x@y" });
     runIqSeq(OWN, false, false, { "send a " + A1, "ensm", "send a " + A1, "closed 1", "send b " + A1, "closed 0" });
     runIqSeq(OWN, true, false, { "send a " + A1, "send b -", "recv iq result a " + A1, "destroy", "recv iq result b -" });
@@ -721,7 +961,7 @@ int main(int argc, char **argv)
     std::vector<std::string> small = {
         "send a -", "send a " + A1, "send b " + DOM,
         "recv iq result a -", "recv iq result a " + A1, "recv iq error a eve@evil.org", "recv iq result b " + DOM, "recv iq error a " + OWN,
-        "closed 1", "closed 0", "opened 0", "fail a",
+        "closed 1", "closed 0", "opened 0 1", "fail a",
     };
     std::vector<std::string> big;
     std::vector<std::string> ids = { "a", "b" }, tos = { "-", A1, DOM };
@@ -729,7 +969,8 @@ int main(int argc, char **argv)
     for (auto &i : ids) for (auto &t : tos) big.push_back("send " + i + " " + t);
     for (auto &i : ids) for (auto &f : froms) { big.push_back("recv iq result " + i + " " + f); }
     for (auto &f : froms) big.push_back("recv iq error a " + f);
-    for (auto s : { "closed 1", "closed 0", "opened 1", "opened 0", "fail a", "fail b", "failall", "ackall", "destroy" }) big.push_back(s);
+    big.push_back("send a bob@rem.org");   // bare addressee: a reply from the full JID is a different entity
+    for (auto s : { "closed 1", "closed 0", "opened 1 1", "opened 1 0", "opened 0 1", "opened 0 0", "fail a", "fail b", "failall", "ackall", "destroy" }) big.push_back(s);
     std::vector<std::string> cur;
     std::vector<std::string> tiny = {
         "send a -", "send a " + A1, "recv iq result a -", "recv iq result a " + A1, "recv iq error a eve@evil.org", "recv iq error a " + OWN,
@@ -738,7 +979,7 @@ int main(int argc, char **argv)
     std::vector<std::string> medium;
     for (auto &i : ids) for (auto &t : tos) medium.push_back("send " + i + " " + t);
     for (auto &f : froms) medium.push_back("recv iq result a " + f);
-    for (auto s : { "recv iq result b bob@rem.org/r", "closed 1", "closed 0", "opened 0", "fail a", "failall", "destroy" }) medium.push_back(s);
+    for (auto s : { "recv iq result b bob@rem.org/r", "closed 1", "closed 0", "opened 0 1", "opened 0 0", "opened 1 1", "fail a", "send a bob@rem.org" }) medium.push_back(s);
     int dSmall = 5, dBig = 3;
     if (a.mode == "fast") { dSmall = 3; dBig = 2; }
     for (int d = 1; d <= dSmall; d++) enumIq(small, d, cur);
@@ -773,7 +1014,7 @@ int main(int argc, char **argv)
             else if (r < 85) ops.push_back("ackall");
             else if (r < 88) ops.push_back("ensm");
             else if (r < 92) ops.push_back(std::string("closed ") + (rng.coin() ? "1" : "0"));
-            else if (r < 96) ops.push_back(std::string("opened ") + (rng.coin() ? "1" : "0"));
+            else if (r < 96) ops.push_back(std::string("opened ") + (rng.coin() ? "1" : "0") + (rng.coin() ? " 1" : " 0"));
             else if (r < 97) ops.push_back("destroy");
             else ops.push_back("recv iq result " + rids[rng.below(3)] + " " + A1);
         }
@@ -816,6 +1057,26 @@ int main(int argc, char **argv)
         }
         if (n < 2) { std::string s = "reset mam; "; for (auto &o : ops) s += o + "; "; sample(s); }
         runMamSeq(rng.below(4) != 0, rng.coin(), ops);
+    }
+
+    // ---- Part D: session boundaries through the real stream-management negotiation
+    runNegSeq({ "connF", "send", "connF" });                        // seeded change C07_a1: refused resumption, new session WITH stream management
+    runNegSeq({ "connF", "connR", "send", "connF" });               // seeded change C07_b1: 'resumed' of the previous session must not leak
+    runNegSeq({ "connF", "send", "loss", "connR", "reply", "send", "loss", "connN" });
+    {
+        std::vector<std::string> nalpha = { "send", "reply", "loss", "connR", "connF", "connN", "disc" };
+        int dNeg = a.mode == "fast" ? 4 : thorough ? 6 : 5;
+        for (int d = 1; d <= dNeg; d++) enumNeg(nalpha, d, cur);
+        stat("exhaustive_depth_neg", dNeg); stat("alphabet_neg", (long long)nalpha.size());
+        std::vector<std::string> nfull = { "send", "send", "reply", "stray", "loss", "connR", "connR", "connF", "connU", "connN", "disc" };
+        int nneg = a.mode == "fast" ? 200 : thorough ? 20000 : 2000;
+        for (int n = 0; n < nneg; n++) {
+            int len = 3 + rng.below(28);
+            std::vector<std::string> ops;
+            for (int j = 0; j < len; j++) ops.push_back(nfull[rng.below(nfull.size())]);
+            runNegSeq(ops);
+        }
+        stat("random_neg_sequences", nneg);
     }
 
     // ---- Part C: manager layer
